@@ -196,6 +196,47 @@ fn timestamps(acc: &mut Acc, tier: Tier) {
     });
 }
 
+/// Every millisecond of a second, around the epoch and at a few other whole seconds: the three formats written for the instant
+/// built from a SystemTime / OffsetDateTime, read back.
+fn subsecond_sweep(acc: &mut Acc) {
+    let bases: [i64; 11] = [-86_400, -2, -1, 0, 1, 2, 59, 1_515_531_081, 2_147_483_647, 4_102_444_800, 253_402_300_799];
+    for &sec in &bases {
+        for ms in 0..1000i64 {
+            let instant = sec * 1000 + ms;
+            let id = || format!("ts-ms/{sec}s+{ms}ms");
+            if !acc.selected(&id) {
+                continue;
+            }
+            acc.eval();
+            acc.nontrivial(fnv(id().as_bytes()));
+            let Ok(odt) = time::OffsetDateTime::from_unix_timestamp_nanos(i128::from(instant) * 1_000_000) else { continue };
+            let t = Timestamp::from(odt);
+            for (fname, f) in [("date-time", TimestampFormat::DateTime), ("http-date", TimestampFormat::HttpDate), ("epoch-seconds", TimestampFormat::EpochSeconds)] {
+                let out = match fmt(&t, f) {
+                    Ok(o) => o,
+                    Err(e) => {
+                        acc.fail(&format!("C14/timestamp/{fname}/format-error"), instant.unsigned_abs(), id(), format!("cannot format: {e}"), json!({}));
+                        continue;
+                    }
+                };
+                let want_ms = if f == TimestampFormat::HttpDate { instant.div_euclid(1000) * 1000 } else { instant };
+                match Timestamp::parse(f, &out) {
+                    Ok(back) if instant_ms(&back) == want_ms => acc.outcome(&format!("sub-second sweep {fname}: ok")),
+                    Ok(back) => {
+                        acc.outcome(&format!("sub-second sweep {fname}: ANOTHER INSTANT"));
+                        acc.fail(&format!("C14/timestamp/{fname}/roundtrip-changes-instant"), ms as u64, id(), format!("instant {instant} ms is written {out:?}, which reads back as {} ms", instant_ms(&back)), json!({"text": out}));
+                    }
+                    Err(e) => {
+                        acc.outcome(&format!("sub-second sweep {fname}: OWN OUTPUT REFUSED"));
+                        let fp = if instant < 0 && f == TimestampFormat::EpochSeconds { "C14/timestamp/epoch-seconds/negative-not-parsed".to_owned() } else { format!("C14/timestamp/{fname}/own-output-refused") };
+                        acc.fail(&fp, ms as u64, id(), format!("instant {instant} ms is written {out:?}, which parse refuses: {e}"), json!({"text": out}));
+                    }
+                }
+            }
+        }
+    }
+}
+
 // ------------------------------------------------------------------ ranges
 
 /// strict RFC 9110 single range with positions below 2^63 → Some(range)
@@ -653,13 +694,14 @@ fn mimes(acc: &mut Acc) {
 pub fn run(ctx: &Ctx) -> (Acc, Report) {
     let mut acc = ctx.acc();
     timestamps(&mut acc, ctx.tier);
+    subsecond_sweep(&mut acc);
     ranges(&mut acc, ctx.tier);
     copy_sources(&mut acc);
     mimes(&mut acc);
     mimes_through_the_adapter(&mut acc);
     let rep = Report {
         level: "exploration",
-        rule: "timestamps: full product of boundary fields (9 years x 3 months x valid days of {1,28,29,30,31} x 3 hours x 2 minutes x 2 seconds x 3 millisecond values x 8 (thorough 12) UTC offsets) parsed from RFC 3339 - and built as the same instant from a time::OffsetDateTime carrying that offset and from a SystemTime - and re-emitted in all 3 formats; ranges: all (first,last,suffix,length) over 0..16 (thorough 0..24) and 9 boundary values incl. 2^63-1, every string bytes= + <=6 (thorough 7) symbols over {0,1,9,-,',',' ',+,a,é}, prefix spellings and 2^63/2^64 boundaries; copy sources: 3 buckets x 22 keys x 5 version ids, in 5 client spellings (segments escaped with '/' kept, everything escaped incl. the separator, each with/without leading slash, every byte escaped) and as the library encodes them; content types: 5x5x6 grammar product + 11 malformed, judged on type, subtype, suffix and parameter list, through the library type and through the adapter's own call sites (typed output member -> Content-Type header of GetObject and HeadObject; Content-Type request header -> PutObject's typed member). Range texts of up to 4 symbols and the boundary spellings, and every copy-source spelling, also travel through the adapter's own call sites (Range header -> GetObject's typed member, x-amz-copy-source -> CopyObject's). Oracles: proleptic-Gregorian arithmetic cross-checked per instant with aws-smithy-types, RFC 9110 single-range grammar and interval function, RFC 3986 percent codec. Distinct by text.".into(),
+        rule: "timestamps: full product of boundary fields (9 years x 3 months x valid days of {1,28,29,30,31} x 3 hours x 2 minutes x 2 seconds x 3 millisecond values x 8 (thorough 12) UTC offsets) parsed from RFC 3339 - and built as the same instant from a time::OffsetDateTime carrying that offset and from a SystemTime - and re-emitted in all 3 formats; every millisecond of 11 whole seconds (around the epoch, 2^31-1, the years 2100 and 9999) in all 3 formats, read back; ranges: all (first,last,suffix,length) over 0..16 (thorough 0..24) and 9 boundary values incl. 2^63-1, every string bytes= + <=6 (thorough 7) symbols over {0,1,9,-,',',' ',+,a,é}, prefix spellings and 2^63/2^64 boundaries; copy sources: 3 buckets x 22 keys x 5 version ids, in 5 client spellings (segments escaped with '/' kept, everything escaped incl. the separator, each with/without leading slash, every byte escaped) and as the library encodes them; content types: 5x5x6 grammar product + 11 malformed, judged on type, subtype, suffix and parameter list, through the library type and through the adapter's own call sites (typed output member -> Content-Type header of GetObject and HeadObject; Content-Type request header -> PutObject's typed member). Range texts of up to 4 symbols and the boundary spellings, and every copy-source spelling, also travel through the adapter's own call sites (Range header -> GetObject's typed member, x-amz-copy-source -> CopyObject's). Oracles: proleptic-Gregorian arithmetic cross-checked per instant with aws-smithy-types, RFC 9110 single-range grammar and interval function, RFC 3986 percent codec. Distinct by text.".into(),
         exhaustive: true,
         extra: json!({}),
         assumptions: vec!["range strings with lenient list syntax (blanks, empty elements), a non-lower-case unit, or a suffix length >= 2^63 are recorded, not judged".into()],
